@@ -94,3 +94,20 @@ prop("C20",
      not_decided=["toXmlName acts character-wise on multi-character names (argued, not mechanised)",
                   "coercePubid beyond its character class", "termination of coerceComment's loop"],
      explanation="BMP-exhaustive ground checks + contracts on the string-level coercions")
+
+
+prop("C06",
+     level="proof",
+     level_text="Proofs over all byte contents and all assignments of the five *_encoding arguments (labels valid, invalid, "
+                "absent): determineEncoding returns exactly the documented precedence with the documented confidence; "
+                "detectBOM recognises the five BOMs (UTF-32 before UTF-16) and leaves the stream right after the BOM; "
+                "detectEncodingMeta never reports UTF-16 and rewinds; changeEncoding keeps a certain encoding (precondition "
+                "checked at its caller), maps a declared UTF-16 to UTF-8, makes an agreeing declaration certain without "
+                "restart and otherwise rewinds, resets and raises the restart exception; lookupEncoding/handleMeta frame.",
+     level_note="Trusted: pyvc, z3; webencodings.lookup as a function of the label (assumed; utf-8, windows-1252, utf-16/32 "
+                "labels are ground-checked to resolve); chardet absent (as in this environment). The byte-level prescan "
+                "(EncodingParser.getAttribute, ContentAttrParser, EncodingBytes) is NOT under contract in this revision: its "
+                "result enters as an arbitrary codec-or-None. 'The tree equals the tree of the bytes decoded with the reported "
+                "encoding' needs C05 and C01.",
+     not_decided=["prescan byte parser against the standard's prescan algorithm", "tree equality after restart (C01/C05)"],
+     explanation="encoding decision functions under contract with codecs as abstract values")
